@@ -260,6 +260,11 @@ class PathCtx:
         else:
             t = tb(f)
         verdict, backend, detail = self.run.prove(self, t)
+        if f is False and verdict == "unknown" and not _has_quantifier(self.pc):
+            self.qf.set("timeout", 2000)
+            if self.qf.check() == z3.sat:
+                verdict = "refuted"
+            self.qf.set("timeout", Z3_QUICK_MS)
         dt = time.time() - t0
         ob.time += dt
         ob.backend[backend] = ob.backend.get(backend, 0) + 1
